@@ -72,6 +72,9 @@ pub fn classify(m: &Model, input: &[u8], cap: usize, ctx: &mut Ctx) -> bool {
 
 impl Prop for ReadModel {
     type Case = Case;
+    fn input_bytes<'a>(&self, c: &'a mut Self::Case) -> Option<&'a mut Vec<u8>> {
+        Some(&mut c.input.0)
+    }
     fn strategy(&self, _tier: Tier) -> BoxedStrategy<Case> {
         let f = self.0;
         let small = (gen::input_and_cap(f, gen::any_input(f, false)), gen::policy_permissive(), gen::script(), mode3())
